@@ -310,6 +310,25 @@ def run(repo, rep, tier):
         SRC = ('self.host', 'self.namespace', 'self.classname')
         # locals derived from the name-typed attributes (pieces obtained by
         # partition / split / slicing / concatenation are still name text)
+        def data_nodes(e):
+            """sub-expressions whose *text* can flow into the value of e:
+            comparisons (is None, ==, in) and the tests of conditional
+            expressions only yield truth values"""
+            if isinstance(e, ast.Compare):
+                return
+            yield e
+            if isinstance(e, ast.IfExp):
+                yield from data_nodes(e.body)
+                yield from data_nodes(e.orelse)
+                return
+            if isinstance(e, ast.BoolOp):
+                # `a or b` can evaluate to either operand
+                for v in e.values:
+                    yield from data_nodes(v)
+                return
+            for c in ast.iter_child_nodes(e):
+                if isinstance(c, ast.expr):
+                    yield from data_nodes(c)
         derived = {}
         changed = True
         while changed:
@@ -318,7 +337,7 @@ def run(repo, rep, tier):
                 if not isinstance(n, ast.Assign):
                     continue
                 src = None
-                for x in ast.walk(n.value):
+                for x in data_nodes(n.value):
                     if isinstance(x, ast.Attribute) and dotted(x) in SRC:
                         src = dotted(x)
                     elif isinstance(x, ast.Name) and x.id in derived:
@@ -353,6 +372,12 @@ def run(repo, rep, tier):
                         out.append('%s (a piece of %s)' % (e.id,
                                                            derived[e.id]))
                     return
+                if isinstance(e, ast.Compare):
+                    return              # a truth value, not name text
+                if isinstance(e, ast.IfExp):
+                    rec(e.body, folded)
+                    rec(e.orelse, folded)
+                    return
                 for c in ast.iter_child_nodes(e):
                     rec(c, folded)
             rec(a, False)
@@ -361,7 +386,7 @@ def run(repo, rep, tier):
             if isinstance(n, ast.Call) and dotted(n.func) == 'ret.append' \
                     and n.args:
                 a = n.args[0]
-                mentions = [x for x in ast.walk(a)
+                mentions = [x for x in data_nodes(a)
                             if (isinstance(x, ast.Attribute) and
                                 dotted(x) in SRC) or
                             (isinstance(x, ast.Name) and x.id in derived)]
